@@ -722,14 +722,26 @@ impl Monitor for C12 {
                     // find a gate that uses `out` (directly); else self loop
                     let users: Vec<usize> = (0..g.ands.len()).filter(|&j| g.ands[j].1 >> 1 == out >> 1 || g.ands[j].2 >> 1 == out >> 1).collect();
                     if !users.is_empty() && kind == 1 {
-                        let uj = users[rng.usize(users.len())];
+                        // walk up to seven more users upwards: rings of 2..=9 gates
+                        let mut uj = users[rng.usize(users.len())];
+                        let mut ring = 2;
+                        for _ in 0..rng.below(8) {
+                            let o = g.ands[uj].0;
+                            let up: Vec<usize> = (0..g.ands.len()).filter(|&j| j != gi && (g.ands[j].1 >> 1 == o >> 1 || g.ands[j].2 >> 1 == o >> 1)).collect();
+                            if up.is_empty() {
+                                break;
+                            }
+                            uj = up[rng.usize(up.len())];
+                            ring += 1;
+                        }
+                        rep.inc(&format!("cycle_ring_of_up_to:{}", ring));
                         let uout = g.ands[uj].0;
                         if rng.chance(1, 2) {
                             g.ands[gi].1 = uout ^ pol;
                         } else {
                             g.ands[gi].2 = uout ^ pol;
                         }
-                        desc = format!("gate {} now reads gate {} which reads it (cycle of length 2, polarity {})", out, uout, pol);
+                        desc = format!("gate {} now reads gate {} which reads it through {} gates (polarity {})", out, uout, ring - 2, pol);
                     } else {
                         if rng.chance(1, 2) {
                             g.ands[gi].1 = out ^ pol;
